@@ -132,9 +132,16 @@ mod verif_extdata {
 
     #[kani::proof]
     #[kani::unwind(15)]
-    pub fn path_predicate_samples_wellformed() {
-        let n = check_samples(["m.data", "m.onnx_data_1", "m.onnx.data", "m.data/", "m.data/.", "m.txt"]);
-        kani::cover!(n >= 3);
+    pub fn path_predicate_samples_wellformed_a() {
+        let n = check_samples(["m.data", "m.data/", "m.data/."]);
+        kani::cover!(n >= 1);
+    }
+
+    #[kani::proof]
+    #[kani::unwind(15)]
+    pub fn path_predicate_samples_wellformed_b() {
+        let n = check_samples(["m.onnx_data_1", "m.onnx.data"]);
+        kani::cover!(n >= 1);
     }
 
     #[kani::proof]
@@ -146,8 +153,15 @@ mod verif_extdata {
 
     #[kani::proof]
     #[kani::unwind(15)]
+    pub fn path_predicate_samples_extensions() {
+        let n = check_samples(["m.xdata", "m.txt", "data"]);
+        kani::cover!(n == 0);
+    }
+
+    #[kani::proof]
+    #[kani::unwind(15)]
     pub fn path_predicate_samples_names() {
-        let n = check_samples(["m.data/x", "..data/../m", ".data", "m.xdata", "data", "m."]);
+        let n = check_samples(["m.data/x", "..data/../m", ".data", "m."]);
         kani::cover!(n == 0);
     }
 
